@@ -218,6 +218,9 @@ def run(ctx, rec):
             c = X.finish_case(rng, X.D0, node, vrel, fam, n_points=2, margin=0.05)
             if c is not None and len(c["V"]) <= 18:
                 run_case(c, rec)
+                if i % 3 == 0:
+                    rec.events["twin-named-cases"] += 1
+                    run_case(X.twin_named_case(c), rec)
                 if i % 2 == 0:
                     sc = X.shared_case(rng, c, form=(i // 2) % len(X.DAG_FORMS))
                     if sc is not None:
